@@ -167,11 +167,11 @@ def rule_r4(ctx):
 
 
 def run(ctx):
-    rule_r1(ctx)
-    rule_r2(ctx)
-    rule_r3(ctx)
-    rule_r4(ctx)
-    c04.rule_r6(ctx)
+    ctx.guard(rule_r1)
+    ctx.guard(rule_r2)
+    ctx.guard(rule_r3)
+    ctx.guard(rule_r4)
+    ctx.guard(c04.rule_r6)
     for rr in ctx.rules:
         if rr.id.startswith("C04."):
             rr.id = "C13.R5"
